@@ -50,7 +50,7 @@ def call_shapes(params):
 
 
 ARGFORMS = ["const", "name", "expr", "same"]
-CONTEXTS = ["stmt", "assign", "inexpr", "hostfn", "cleanfn"]
+CONTEXTS = ["stmt", "assign", "inexpr", "hostfn", "cleanfn", "contline"]
 
 
 def render_call(fname, params, shape, form, site_no):
@@ -78,6 +78,9 @@ def render_site(call, ctx, returns, site_no):
         return pre + "r%d = %s\nprint(r%d)\n" % (site_no, call, site_no)
     if ctx == "inexpr":
         return pre + "print(%s + 1)\n" % call
+    if ctx == "contline":
+        # the call stands on a continuation line that is indented differently from the first line of its statement
+        return pre + "r%d = (1 +\n            %s)\nprint(r%d)\n" % (site_no, call, site_no)
     if ctx == "cleanfn":
         body = "def k%d():\n" % site_no
         if returns:
@@ -106,7 +109,7 @@ def make_project(params, bkey, sites, host):
     fname = {"same": "f", "import": "xd.f", "from": "f"}[host]
     rendered = []
     for i, (shape, form, ctx) in enumerate(sites):
-        if not returns and ctx in ("assign", "inexpr"):
+        if not returns and ctx in ("assign", "inexpr", "contline"):
             return None
         rendered.append(render_site(render_call(fname, params, shape, form, i), ctx, returns, i))
     if host == "same":
@@ -140,7 +143,7 @@ class C04(Check):
             shapes = call_shapes(params)
             for bkey in ("ret", "local", "print", "two-stmts", "early"):
                 for host in HOSTS:
-                    single = [(s, f, c) for s in range(len(shapes)) for f in ARGFORMS for c in CONTEXTS]
+                    single = [(s, f, c) for s in range(len(shapes)) for f in ARGFORMS for c in CONTEXTS if c != "contline" or f in ("const", "name")]
                     for s1 in single:
                         out.append({"p": pi, "b": bkey, "host": host, "sites": [list(s1)]})
                     # two sites: second site restricted to stmt/assign contexts and const/name forms
